@@ -284,6 +284,9 @@ class SymBackend(BackendBase):
     def try_public_membership(self, objs, unis):
         """native side only"""
 
+    def try_public_laws(self, unis, laws):
+        """native side only"""
+
     # ---- private state
     def set_field(self, obj, field, value):
         obj.fields[field] = value
